@@ -21,7 +21,7 @@ def _build(name, here, out):
                        capture_output=True, text=True)
     if p.returncode != 0:
         return None, p.stderr[-2000:]
-    binname = {"state_tree": "st_replay"}.get(name, name)
+    binname = {"state_tree": "st_replay", "ffi_serde": "ffi_replay"}.get(name, name)
     return os.path.join(tgt, "release", binname), ""
 
 
@@ -52,13 +52,31 @@ def _search_state_tree(here, out, depth=4):
     return None, p.stdout.strip()[-300:] + p.stderr.strip()[-300:]
 
 
+def _search_ffi(here, out):
+    exe, err = _build("ffi_serde", here, out)
+    if exe is None:
+        return None, "replay harness does not build against the current tree: " + err[-400:]
+    try:
+        p = subprocess.run([exe, "search"], capture_output=True, text=True, timeout=600)
+    except subprocess.TimeoutExpired:
+        return None, "replay search timeout"
+    m = re.search(r"FOUND index=(\d+) value=(.*?) clause=(.*)", p.stdout)
+    if m:
+        return {"cmd": ["ffi_replay", "run", m.group(1)], "value": m.group(2), "clause": m.group(3)}, ""
+    return None, (p.stdout.strip()[-300:] + p.stderr.strip()[-300:])
+
+
+SEARCHERS = {"state_tree": lambda here, out: _search_state_tree(here, out, 4), "ffi_serde": _search_ffi}
+TOOLS = {"st_replay": "state_tree", "ffi_replay": "ffi_serde"}
+
+
 def make_violation(prop, cfg, r, f, ob, here, out):
     payload = {"property": prop, "unit": r.unit, "obligation": ob, "function": f["fn"], "kind": f["kind"],
                "clause": f["clause"], "verifier": "verus", "verifier_output": f["raw"],
                "cut_sha256": {c.name: c.sha for c in r.cuts if c.name == f["fn"]}}
     found, note = (None, "no replay harness for this unit")
-    if cfg.get("replay") == "state_tree":
-        found, note = _search_state_tree(here, out, 4)
+    if cfg.get("replay") in SEARCHERS and cfg.get("replay_units", [r.unit]).count(r.unit):
+        found, note = SEARCHERS[cfg["replay"]](here, out)
     if found:
         payload["failing_input"] = found
         path = _write(prop, out, payload)
@@ -71,9 +89,9 @@ def make_violation(prop, cfg, r, f, ob, here, out):
 def search(prop, cfg, r, here, out, why=""):
     """proof annotations lost (exit 2 territory): only a concrete failing input of the real code
     turns this into a violation"""
-    if cfg.get("replay") != "state_tree":
+    if cfg.get("replay") not in SEARCHERS or not cfg.get("replay_units", [r.unit]).count(r.unit):
         return None
-    found, note = _search_state_tree(here, out, 4)
+    found, note = SEARCHERS[cfg["replay"]](here, out)
     if not found:
         return None
     payload = {"property": prop, "unit": r.unit,
@@ -94,7 +112,7 @@ def make_kani_violation(prop, k, here, out):
 def run_known(kf, here, out):
     """returns (still_fails: bool|None, detail)"""
     parts = kf["cmd"].split()
-    name = {"st_replay": "state_tree"}.get(parts[0])
+    name = TOOLS.get(parts[0])
     if name is None:
         return None, "unknown replay tool"
     exe, err = _build(name, here, out)
@@ -118,7 +136,7 @@ def replay_file(path, here, out):
         print(pl.get("verifier_output", "")[:3000])
         return 1
     cmd = fi["cmd"]
-    name = {"st_replay": "state_tree"}.get(cmd[0])
+    name = TOOLS.get(cmd[0])
     exe, err = _build(name, here, out)
     if exe is None:
         print(err)
